@@ -33,6 +33,8 @@ def vocab(prog, fns, tr):
         if f.kind == 'closure':
             continue
         for s, uses in compared_strings(prog, f, tr).items():
+            if s == '':
+                continue    # `k == ""` and `k.is_empty()` are two spellings of one test: not a vocabulary item
             keys.setdefault(s, []).extend(uses)
     return keys
 
